@@ -5,13 +5,13 @@ ENV = os.path.join(os.path.dirname(os.path.dirname(os.path.abspath(__file__))), 
 UNIT = {
     "name": "edition",
     "env": [os.path.join(ENV, "edition_env.rs")],
-    "declared_trusted": {r"external_body": 3},
+    "declared_trusted": {r"external_body": 4},
     "items": [
         {"kind": "fn", "file": "bindgen/lib.rs", "name": "sync_features", "impl": r"^impl Builder$", "impl_nth": 0, "ret": "r",
          "closure": {"enclosing": "generate", "anchor": "self.options.rust_features = match self.options.rust_edition {", "nth": 0,
                      "signature": "fn sync_features(self_: &Builder) -> (r: Result<RustFeatures, BindgenError>)",
                      "prefix": "{ Ok(match self_.options.rust_edition", "suffix": ") }"},
-         "subst": [("self", "self_", 4, "R18 captured self")],
+         "subst": [("self", "self_", 1, "R18 captured self")],
          "ensures": [
              # "An edition that the target does not support is rejected with an error"
              "(match r { Err(BindgenError::UnsupportedEdition(e, t)) => self_.options.rust_edition == Some(e) && t == self_.options.rust_target && !e.s_available(t), Err(_) => false, Ok(_) => true })",
